@@ -110,3 +110,66 @@ def replay_c04(model, params, clause, info):
     bad = [v for v in r["violations"] if not any(p.fullmatch("bounded:" + v["key"]) for p in pats)]
     return {"violates": bool(bad), "detail": "; ".join(f"{v['key']}: {v['detail']}" for v in bad[:5])[:700] or "fantasy models agree with conditioning from scratch on the real code (known findings aside)",
             "entry": {"module": "contracts.C04_fantasy", "function": "replay_c04", "args": [model, list(params), clause, info]}}
+
+
+# ------------------------------------------------------------------ fantasy likelihoods ---------------------------------------------
+GLM = "gpytorch.likelihoods.gaussian_likelihood"
+
+
+@case("C04", clause="fantasy_likelihood", name="fixed_noise_fantasy_likelihood", expand=lambda ix: [(learn, fb) for learn in (False, True) for fb in (False, True)], replay=lambda *a: replay_c04(*a),
+      functions=[f"{GLM}.FixedNoiseGaussianLikelihood.get_fantasy_likelihood"])
+def fixed_noise_fantasy_likelihood(c, learn, fb):
+    """the fantasy model's likelihood must be the likelihood of the extended data set: its FIXED noise vector is [old fixed noise; fantasy noise]
+    (the old one expanded over the fantasy batch), the learned additional noise (if any) is carried over once -- as its own copied module, not folded
+    into the fixed part -- and the source likelihood keeps its noise model object and values (frame)"""
+    from contracts.C12_gaussian_likelihoods import fixed_setup
+    it, ctx = c.it, c.ctx
+    lik, fixed, mfn, n, B = fixed_setup(c, learn, 0)
+    m, F = c.size("m"), c.size("F")
+    c.assume(z3.And(m.t >= 1, F.t >= 1))
+    new = sym_tensor("fantasy_noise", ([F.t] if fb else []) + [m.t])
+    nc0 = lik.fields["_modules"].d["noise_covar"]
+    old = c.getattr(nc0, "noise").frozen()
+    sec0 = lik.fields["_modules"].d.get("second_noise_covar")
+    raw0 = sec0.fields["_parameters"].d["raw_noise"] if learn else None
+    res = it.call(ctx, c.getattr(lik, "get_fantasy_likelihood"), [], {"noise": new})
+    ok = isinstance(res, VObj) and res is not lik and res.cls.name == "FixedNoiseGaussianLikelihood"
+    c.prove("fantasy_likelihood.is_a_new_FixedNoiseGaussianLikelihood", z3.BoolVal(ok))
+    if not ok:
+        return
+    k, f = ivar("k"), ivar("f")
+    c.assume(z3.And(k >= 0, k < n + m.t, f >= 0, f < F.t))
+    lead = [f] if fb else []
+    nc1 = res.fields["_modules"].d.get("noise_covar")
+    okn = isinstance(nc1, VObj) and nc1 is not nc0
+    c.prove("fantasy_likelihood.has_its_own_noise_model", z3.BoolVal(okn))
+    if okn:
+        nz = c.getattr(nc1, "noise")
+        okd = len(nz.dims) == len(lead) + 1
+        want = z3.If(k < n, old.at([k]), new.at(lead + [k - n]))  # FixedGaussianNoise rounds entries below settings.min_fixed_noise up to it (C07/C12)
+        c.prove("fantasy_likelihood.fixed_noise_is_old_fixed_noise_then_fantasy_noise",
+                z3.And(nz.dims[-1].size == n + m.t, z3.Or(nz.at_dims(lead + [k]) == want, nz.at_dims(lead + [k]) == z3.If(want < mfn, mfn, want))) if okd else z3.BoolVal(False))
+    # frame: the source keeps its noise model (same object, same values)
+    c.prove("fantasy_likelihood.source_keeps_its_noise_model", z3.BoolVal(lik.fields["_modules"].d.get("noise_covar") is nc0))
+    now = c.getattr(nc0, "noise")
+    i = ivar("i")
+    c.assume(z3.And(i >= 0, i < n))
+    c.prove("fantasy_likelihood.source_noise_unchanged", z3.And(z3.BoolVal(len(now.dims) == 1), now.at_dims([i]) == old.at([i])) if len(now.dims) == 1 else z3.BoolVal(False))
+    sec1 = res.fields["_modules"].d.get("second_noise_covar")
+    if learn:
+        oks = isinstance(sec1, VObj) and sec1 is not sec0 and "raw_noise" in sec1.fields["_parameters"].d
+        c.prove("fantasy_likelihood.additional_noise_module_copied", z3.BoolVal(oks))
+        if oks:
+            r1 = sec1.fields["_parameters"].d["raw_noise"]
+            c.prove("fantasy_likelihood.additional_noise_value_carried_over", z3.And(z3.BoolVal(r1 is not raw0 and len(r1.dims) == 1), r1.at_dims([z3.IntVal(0)]) == raw0.at([z3.IntVal(0)])) if len(r1.dims) == 1 else z3.BoolVal(False))
+    else:
+        c.prove("fantasy_likelihood.no_additional_noise_appears", z3.BoolVal(sec1 is None or sec1 is NONE))
+
+
+@case("C04", clause="fantasy_likelihood", name="fixed_noise_fantasy_requires_noise", expand=lambda ix: [()], replay=lambda *a: replay_c04(*a),
+      functions=[f"{GLM}.FixedNoiseGaussianLikelihood.get_fantasy_likelihood"])
+def fixed_noise_fantasy_requires_noise(c):
+    from contracts.C12_gaussian_likelihoods import fixed_setup
+    lik, fixed, mfn, n, B = fixed_setup(c, False, 0)
+    exc = c.raises(lambda: c.it.call(c.ctx, c.getattr(lik, "get_fantasy_likelihood"), [], {}))
+    c.prove("fantasy_likelihood.fixed_noise_without_noise_rejected", z3.BoolVal(exc is not None and exc.clsname == "RuntimeError"))
